@@ -221,6 +221,11 @@ def main(argv=None):
             else:
                 unlisted.append((rec, v))
 
+    all_sigs = sorted({jdump(v["sig"]) for _, v in unlisted})
+    if all_sigs:
+        print(f"{len(all_sigs)} distinct unlisted violation signatures:", flush=True)
+        for s_ in all_sigs[:40]:
+            print("   ", s_)
     for k in known_hit.values():
         print(f"KNOWN-FINDING: property={pid} {k['id']}: {k['what']}")
 
